@@ -46,16 +46,6 @@ RECV_KEYS = [("import_custom_exceptions", "ImportCustomExceptions"),
              ("instantiate_custom_exceptions", "InstantiateCustomExceptions"),
              ("instantiate_oldstyle_exceptions", "InstantiateOldstyleExceptions")]
 
-# what `vinegar.load` (and the module functions it calls) may call, normalised (see called_norm): every entry is either a step
-# of the model or a pure helper of the language; a call of a local name / of an expression (`cls(...)`) is not in the list
-LOAD_CALLS_ALLOWED = [
-    "ClassType", "InstanceType", "__import__", "getattr", "hasattr", "isinstance", "issubclass", "setattr", "str", "type",
-    "tuple", "list", "dict", "len", "bool", "repr", "format", "iter", "next", "zip", "enumerate", "any", "all", "frozenset",
-    ".__new__", ".__str__", ".split", ".partition", ".format", ".count", ".get", ".join", ".startswith", ".items",
-    ".setdefault", ".append",
-]
-
-
 def cps(s):
     return "[" + ", ".join(str(ord(c)) for c in s) + "]"
 
@@ -263,7 +253,13 @@ def load_facts(vinegar, version, d):
     if w2 != "TB-PROBE" + pre + "77.8" + mid + vs + suf or tb_after("") != "TB-PROBE" + pre + mid + vs + suf:
         raise Inexpressible("load: the warning is not a fixed template around the two versions")
     calls = sorted(called_norm(vinegar.load, vinegar))
-    return dict(ver_attr=va, ver_default=d["ver_denied"], ver_compare=d["ver_denied"], sep=".", warn=[pre, mid, suf],
+    dcalls = set()
+    for fn in reachable_functions(vinegar.load, vinegar):
+        if any(isinstance(n, ast.ClassDef) for n in ast.walk(func_ast(fn))):
+            dcalls |= called_norm(fn, vinegar)
+    if not dcalls:
+        raise Inexpressible("load: no module function it uses defines the subclass of the exception class")
+    return dict(dcalls=sorted(dcalls), ver_attr=va, ver_default=d["ver_denied"], ver_compare=d["ver_denied"], sep=".", warn=[pre, mid, suf],
                 tb_attr=tb_attr, calls=calls)
 
 
@@ -291,6 +287,169 @@ def called_norm(fn, module, _seen=None):
             else:
                 out.add("<expr>")
     return out
+
+
+def reachable_functions(fn, module, _seen=None):
+    """fn and the functions of the same module it (transitively) calls"""
+    _seen = _seen if _seen is not None else []
+    if fn in _seen:
+        return _seen
+    _seen.append(fn)
+    for n in ast.walk(func_ast(fn)):
+        if isinstance(n, ast.Call) and isinstance(n.func, ast.Name):
+            target = getattr(module, n.func.id, None)
+            if inspect.isfunction(target) and target.__module__ == module.__name__:
+                reachable_functions(target, module, _seen)
+    return _seen
+
+
+def probe_class_facts(vinegar):
+    """a probe module with canary classes, visible to load under instantiate_custom_exceptions"""
+    import types
+    name = "_vinegar_gen_probe"
+    mod = types.ModuleType(name)
+    log = []
+
+    class E(Exception):
+        def __new__(cls, *a, **k):
+            log.append(("new", a, k))
+            return Exception.__new__(cls)
+
+        def __init__(self, *a, **k):
+            log.append(("init", a, k))
+
+    class U(Exception):
+        def __str__(self):
+            raise RuntimeError("no text")
+    for c in (E, U):
+        c.__module__ = name
+    mod.E, mod.U = E, U
+    sys.modules[name] = mod
+    try:
+        def load(rec, old=False, inst=True):
+            return vinegar.load(rec, import_custom_exceptions=False, instantiate_custom_exceptions=inst,
+                                instantiate_oldstyle_exceptions=old)
+        exc = load(((name, "E"), (1, 2), (("x", 3),), "TB"))
+        if not isinstance(exc, E) or exc.args != (1, 2):
+            raise Inexpressible("load: a loaded custom class is not rebuilt under instantiate_custom_exceptions")
+        by_new = log == [("new", (), {})]
+        if not by_new and not any(ev[0] == "init" for ev in log):
+            raise Inexpressible("load: instantiation is neither cls.__new__(cls) nor a constructor call: %r" % (log,))
+        T = type(exc)
+        keeps = T is not E and issubclass(T, E) and T.__mro__[1] is E and T.__name__ == E.__name__ and T.__module__ == E.__module__
+        start, end = vinegar.REMOTE_LINE_START, vinegar.REMOTE_LINE_END
+        if type(start) is not str or type(end) is not str or not start:
+            raise Inexpressible("vinegar.REMOTE_LINE_START/END are not text")
+        u = str(load(((name, "U"), (), (), "TB")))
+        tail = start + "(1)" + end + "TB"
+        if not u.endswith(tail):
+            raise Inexpressible("str() of a received exception does not end with the remote-traceback marker and text")
+        unprintable = u[:-len(tail)]
+        v = load((("builtins", "ValueError"), ("x",), (), "a" + start + "b"), inst=False)
+        if str(v) != "x" + start + "(2)" + end + "a" + start + "b" or repr(v) != str(v):
+            raise Inexpressible("str()/repr() of a received exception is not <own text> + marker(count + 1) + traceback")
+        # the old-style switch
+        def shape(x):
+            return (type(x).__mro__[1:3], getattr(x, "args", None), sorted(vars(x).items()) if hasattr(x, "__dict__") else None) \
+                if isinstance(x, BaseException) else repr(x)
+        inert = True
+        for rec in (((name, "E"), (1,), (), "TB"), (("builtins", "KeyError"), ("k",), (("y", 1),), "TB"),
+                    (("no_such_module_x", "C"), (), (), "TB"), 1, "text"):
+            for inst in (False, True):
+                if shape(load(rec, False, inst)) != shape(load(rec, True, inst)):
+                    inert = False
+        return dict(by_new=by_new, keeps_names=keeps, unprintable=unprintable, oldstyle_inert=inert)
+    finally:
+        sys.modules.pop(name, None)
+
+
+KIND_OF_TYPE = [type(None), type(NotImplemented), type(Ellipsis), bool, int, float, complex, bytes, str, tuple, frozenset, slice]
+KIND_REPS = [[None], [NotImplemented], [Ellipsis], [True, False], [0, 3], [1.5], [1j], [b"ab", b""], ["ab", ""], [(), (1,)],
+             [frozenset()], [slice(1, 2, 3)]]
+SAMPLE_ARGS = {"OSError": [(2, "m", "f"), (2, "m")], "BlockingIOError": [(11, "m", 7)],
+               "UnicodeDecodeError": [("utf-8", b"ab", 0, 1, "r")], "UnicodeEncodeError": [("utf-8", "ab", 0, 1, "r")],
+               "UnicodeTranslateError": [("ab", 0, 1, "r")], "SyntaxError": [("m", ("f", 1, 2, "t", 3, 4)), ("m", ("f", 1, 2, "t"))],
+               "StopIteration": [(5,)], "SystemExit": [(3,)]}
+
+
+def _same(a, b):
+    return type(a) is type(b) and (a == b or a is b)
+
+
+def builtin_table():
+    """every built-in exception class of THIS interpreter: does `cls.__new__(cls)` need arguments; for each public attribute
+    that is a data descriptor and does not store every kind of value faithfully: the kinds of brine values `setattr` stores
+    and reads back unchanged (on an instance of a subclass made by `__new__`, which is what `load` builds), and the kinds its
+    getter was seen to return on sample instances; whether dir() lists `args` exactly once and nothing twice; whether any
+    getattr of a public name raised something other than AttributeError"""
+    import builtins
+    rows, dir_sane, getattr_clean = [], True, True
+    classes = sorted(set(v for k, v in vars(builtins).items() if isinstance(v, type) and issubclass(v, BaseException)
+                         and v.__name__ == k), key=lambda c: c.__name__)
+    for C in classes:
+        try:
+            C.__new__(C)
+            nn = False
+        except TypeError:
+            nn = True
+        attrs = []
+        if not nn:
+            P = type("Probe", (C,), {})
+            insts = [P.__new__(P)]
+            for a in [(), ("a", 2)] + SAMPLE_ARGS.get(C.__name__, []):
+                try:
+                    insts.append(C(*a))
+                except Exception:  # noqa
+                    pass
+            for i in insts:
+                names = dir(i)
+                if names.count("args") != 1 or len(set(names)) != len(names):
+                    dir_sane = False
+            for n in [n for n in dir(insts[0]) if not n.startswith("_") and n != "args"]:
+                obs = set()
+                for i in insts:
+                    try:
+                        v = getattr(i, n)
+                    except AttributeError:
+                        continue
+                    except Exception:  # noqa
+                        getattr_clean = False
+                        continue
+                    obs.add(KIND_OF_TYPE.index(type(v)) if type(v) in KIND_OF_TYPE else 8)     # others travel as repr text
+                d = getattr(P, n, None)
+                if d is None or not hasattr(type(d), "__set__"):
+                    continue
+                acc = []
+                for k, reps in enumerate(KIND_REPS):
+                    ok = True
+                    for v in reps:
+                        p = P.__new__(P)
+                        try:
+                            setattr(p, n, v)
+                            ok = ok and _same(getattr(p, n), v)
+                        except Exception:  # noqa
+                            ok = False
+                    if ok:
+                        acc.append(k)
+                if len(acc) != len(KIND_REPS):
+                    attrs.append((n, acc, sorted(obs)))
+        rows.append((C.__name__, nn, attrs))
+    L = ["", "/-! ### every built-in exception class of this interpreter (measured) -/",
+         "/-- (class name, does `cls.__new__(cls)` need arguments, [(attribute whose setter is typed, kinds of value it stores",
+         "faithfully, kinds its getter was seen to return)]); kinds: 0 None, 1 NotImplemented, 2 Ellipsis, 3 bool, 4 int, 5 float,",
+         "6 complex, 7 bytes, 8 str, 9 tuple, 10 frozenset, 11 slice.  Every other public attribute stores any value. -/",
+         "def builtinExcNames : List String := " + lean_list([lean_str(r[0]) for r in rows], 6),
+         "def builtinExcTable : List (List Nat × Bool × List (List Nat × List Nat × List Nat)) := ["]
+    body = []
+    for name, nn, attrs in rows:
+        a = ", ".join("(%s, [%s], [%s])" % (cps(n), ", ".join(map(str, acc)), ", ".join(map(str, obs))) for n, acc, obs in attrs)
+        body.append("  (%s, %s, [%s])" % (cps(name), lean_bool(nn), a))
+    L.append(",\n".join(body) + "]")
+    L += ["/-- on every sample instance `dir()` lists `args` exactly once and no name twice -/",
+          "def builtinDirSane : Bool := %s" % lean_bool(dir_sane),
+          "/-- no `getattr` of a public name of a sample instance raised anything but AttributeError -/",
+          "def builtinGetattrClean : Bool := %s" % lean_bool(getattr_clean)]
+    return L
 
 
 # ------------------------------------------------------------------------------------------------ protocol, observed
@@ -512,9 +671,22 @@ def gen_vinegar():
           "", "/-- everything `load` and the module functions it uses call (AST, normalised: helpers followed, method calls by",
           "method name); the model has one step per entry, or the entry is a pure helper of the language -/",
           "def loadCalls : List String := " + lean_list([lean_str(c) for c in ld["calls"]], 6),
-          "def loadCallsAllowed : List String := " + lean_list([lean_str(c) for c in sorted(LOAD_CALLS_ALLOWED)], 6),
-          "def derivedCalls : List String := []",
-          "def derivedCallsAllowed : List String := []"]
+          "/-- the same for the module functions `load` uses that define a class (the `Derived` subclass maker) -/",
+          "def derivedCalls : List String := " + lean_list([lean_str(c) for c in ld["dcalls"]], 6)]
+    pf = probe_class_facts(vinegar)
+    L += ["", "/-! ### instantiation and presentation (observed on a probe module with canaries) -/",
+          "/-- the instance is made by `cls.__new__(cls)` with no arguments and `__init__` does not run -/",
+          "def instantiatesByNew : Bool := %s" % lean_bool(pf["by_new"]),
+          "/-- `instantiate_oldstyle_exceptions` changes no outcome (probe records under both settings) -/",
+          "def oldstyleSwitchInert : Bool := %s" % lean_bool(pf["oldstyle_inert"]),
+          "/-- `str()` of a received exception: the class's own text (or this, when that raises), then",
+          "`REMOTE_LINE_START (n) REMOTE_LINE_END` and the remote traceback -/",
+          "def unprintable : List Nat := " + cps(pf["unprintable"]),
+          "def remoteLineStart : List Nat := " + cps(vinegar.REMOTE_LINE_START),
+          "def remoteLineEnd : List Nat := " + cps(vinegar.REMOTE_LINE_END),
+          "/-- the received object's class is a subclass of the named class carrying its `__name__` and `__module__` -/",
+          "def derivedKeepsNames : Bool := %s" % lean_bool(pf["keeps_names"])]
+    L += builtin_table()
     cfg = protocol.DEFAULT_CONFIG
     L += ["", "/-! ### `protocol.DEFAULT_CONFIG`: the exception-related switches (live) -/"]
     for key, camel in SEND_KEYS + RECV_KEYS:
